@@ -74,6 +74,15 @@ def evOK : Event → Bool
   | .api op => quietOp op
   | _ => true
 
+/-- "nothing is routed after the close": no headers-parsed notification and no routing entry
+    follows the point where the library shut the transport -/
+def routedAfterClose (obs : List Obs) : Bool :=
+  let tail := obs.dropWhile (fun o => !Obs.isTc o)
+  tail.any fun o => Obs.isHp o || isRt o
+
+/-- the predicate the driver evaluates: `holds` and nothing routed after the close -/
+def holdsStrict (sc : Scenario) (obs : List Obs) : Bool := holds sc obs && !routedAfterClose obs
+
 /-! ### the definitions above and the ones the lemmas are stated with coincide -/
 
 theorem isRt_eq : isRt = C19L.isRt := by
